@@ -63,7 +63,14 @@ reg(part('memmem_searcher', 'src/memmem/searcher.rs', 'memmem::searcher'))
 reg(part('cow', 'src/cow.rs', 'cow'))
 # the non-union, non-fn-pointer slice of the meta searcher that Two-Way depends on
 reg(part('memmem_pre', 'src/memmem/searcher.rs', 'memmem::searcher',
-         only_items=['struct PrefilterState', 'impl PrefilterState', 'struct Pre', 'impl Pre', 'fn do_packed_search']))
+         only_items=['struct PrefilterState', 'impl PrefilterState', 'struct Pre', 'impl Pre', 'fn do_packed_search',
+                     'struct Prefilter', 'impl Prefilter'],
+         # X9: the union + fn-pointer fields and everything that builds or calls through them are not extracted
+         drop_fields=['Prefilter.call', 'Prefilter.kind'],
+         drop_items=['impl Prefilter::fn fallback', 'impl Prefilter::fn sse2', 'impl Prefilter::fn avx2',
+                     'impl Prefilter::fn simd128', 'impl Prefilter::fn neon', 'impl Prefilter::fn find']))
+# stubs: assumed contracts standing in for modules that are verified in another build
+reg(part('stub_all_memchr', None, 'arch::all::memchr'))
 reg(part('memmem_reexport', 'src/memmem/mod.rs', 'memmem', only_items=['use crate::memmem::searcher::Pre']))
 
 P0 = ['prelude/vbase.vrs']
@@ -80,8 +87,8 @@ BUILDS = {
                                  'sse2_packedpair', 'avx2_packedpair'], prelude=P0 + ['prelude/x_eqrk.vrs', 'prelude/x_pp.vrs']),
     'dev_pps': dict(parts=['ext', 's_vector', 's_all_mod', 's_all_packedpair', 'all_default_rank', 's_generic_packedpair',
                            's_sse2_packedpair', 's_avx2_packedpair'], prelude=P0 + ['prelude/x_eqrk.vrs', 'prelude/x_pp.vrs']),
-    'dev_pre': dict(parts=['ext', 'vector', 'memmem_reexport', 'memmem_pre'], prelude=P0),
-    'dev_tw': dict(parts=['ext', 'vector', 'all_mod', 'memmem_reexport', 'memmem_pre', 'all_twoway'], prelude=P0 + ['prelude/x_eqrk.vrs', 'prelude/x_tw.vrs']),
+    'dev_pre': dict(parts=['ext', 'vector', 'stub_all_memchr', 'memmem_reexport', 'memmem_pre'], prelude=P0),
+    'dev_tw': dict(parts=['ext', 'vector', 'all_mod', 'stub_all_memchr', 'memmem_reexport', 'memmem_pre', 'all_twoway'], prelude=P0 + ['prelude/x_eqrk.vrs', 'prelude/x_tw.vrs']),
     'dev_memmem': dict(parts=['ext', 'vector', 'memmem_mod', 'memmem_searcher', 'cow'], prelude=P0 + ['prelude/x_memmem.vrs']),
 }
 
